@@ -157,7 +157,8 @@ def check_computed(ctx, R="C04.computed"):
                 continue
             n += 1
             t = lib.role_text(fn, r.value)
-            guards = " && ".join(unparse(g) for g, p in lib.path_conditions(r, fn) if p)
+            conds = lib.flatten_conditions(lib.guard_tests(r, fn))
+            guards = " && ".join(unparse(g) if p else f"not ({unparse(g)})" for g, p in conds)
             why = None
             if t.startswith(("super().intersects(", f"{a}.intersects(", "super().containsObject(")):
                 why = "delegation to the general test"
@@ -167,15 +168,15 @@ def check_computed(ctx, R="C04.computed"):
                 why = "exact surface collision query"
             elif t in (f"{a}.polygons.contains({b}._boundingPolygon)", f"{a}.polygons.covers({b}._boundingPolygon)"):
                 why = "exact polygon containment of the object's exact footprint"
-            elif "signed_distance" in t and ".all(" in t.replace("numpy.all(", ".all(") and f"{a}.isConvex" in guards:
+            elif "signed_distance" in t and ".all(" in t.replace("numpy.all(", ".all(") and lib.holds(conds, f"{a}.isConvex"):
                 why = "all vertices strictly inside a convex container"
-            elif t == f"{a}.containsPoint({b}.mesh.vertices[0])" and "MeshSurfaceRegion" in guards:
+            elif t == f"{a}.containsPoint({b}.mesh.vertices[0])" and lib.holds(conds, f"isinstance({b}, MeshSurfaceRegion)"):
                 why = "a connected surface without contact is wholly inside or outside: one vertex decides"
             else:
                 # the symmetric interior-point test
                 parts = sorted(unparse(v) for v in r.value.values) if isinstance(r.value, ast.BoolOp) and isinstance(r.value.op, ast.Or) else []
                 parts = sorted(lib.role_text(fn, v) for v in r.value.values) if parts else []
-                if parts == sorted([f"{a}._containsPointExact({b}._interiorPoint)", f"{b}._containsPointExact({a}._interiorPoint)"]) and "_bodyCount == 1" in guards:
+                if parts == sorted([f"{a}._containsPointExact({b}._interiorPoint)", f"{b}._containsPointExact({a}._interiorPoint)"]) and lib.holds(conds, f"{a}._bodyCount == 1 and {b}._bodyCount == 1"):
                     why = "single-body solids without surface contact: one contains the other iff it contains an interior point of the other (tested both ways)"
             if why:
                 ctx.ok(R, r, f"{q}: `{norm_text(r.value, 60)}` is exact here: {why}")
